@@ -18,6 +18,7 @@ PROPS = {
     'C02': ('c02', 'proof', ['SUNalg', 'instantiate']),
     'C03': ('c03', 'proof', ['SUNalg', 'instantiate']),
     'C13': ('c13', 'proof', ['SUNalg']),
+    'C11': ('c11', 'proof', ['SUNalg']),
 }
 
 
